@@ -194,8 +194,13 @@ impl C03 {
                 ctx.violation(&format!("panic:{}", crate::short_loc(&loc)), format!("parse/print panicked at {loc}: {msg}"));
                 return;
             }
-            Ok(Err(_)) => {
-                ctx.count("skipped/refused");
+            Ok(Err(e)) => {
+                if matches!(d.verdict, Verdict::Valid) {
+                    // a valid document that cannot be loaded cannot be printed back either
+                    ctx.violation("valid-rejected", format!("R says the text is valid, the parser refuses it, so it cannot be reproduced: {e}"));
+                } else {
+                    ctx.count("skipped/refused");
+                }
                 return;
             }
             Ok(Ok((p, again, cloned, via_im))) => {
